@@ -76,6 +76,19 @@ def ops_for(n, reduced=False, rich=False):
         ops.append(['remove_at', i])
         if not reduced:
             ops.append(['index_at', i])
+    # an element of the list put into the list once more (the same object at
+    # two positions is nothing special for a Python list)
+    if not reduced:
+        # whitespace is accepted as material but is not a group: the list, its
+        # serialisation and the owner's text do not change
+        ops.append(['ws', None, ' '])
+        ops.append(['ws', n // 2, '\n'])
+    if n and not reduced:
+        ops.append(['append_at', n - 1])
+        ops.append(['append_at', 0])
+        ops.append(['insert_at', n // 2, 0])
+        ops.append(['insert_at', 0, n - 1])
+        ops.append(['insert_at', n, n // 2])
     for i in range(-(n + 1), n + 2):
         ops.append(['pop', i])
     ops.append(['pop', None])
@@ -125,6 +138,14 @@ def apply_model(L, op):
         if name == 'remove_at':
             L.remove(L[op[1]])
             return ('val', None)
+        if name == 'ws':
+            return ('val', None)
+        if name == 'append_at':
+            L.append(L[op[1]])
+            return ('val', None)
+        if name == 'insert_at':
+            L.insert(op[1], L[op[2]])
+            return ('val', None)
         if name == 'index_at':
             return ('val', L.index(L[op[1]]))
         if name == 'pop':
@@ -170,6 +191,12 @@ def apply_real(args, op):
             return ('val', args.remove(mk(op[1], op[2])))
         if name == 'remove_at':
             return ('val', args.remove(args[op[1]]))
+        if name == 'ws':
+            return ('val', args.append(op[2]) if op[1] is None else args.insert(op[1], op[2]))
+        if name == 'append_at':
+            return ('val', args.append(args[op[1]]))
+        if name == 'insert_at':
+            return ('val', args.insert(op[1], args[op[2]]))
         if name == 'index_at':
             return ('val', args.index(args[op[1]]))
         if name == 'pop':
@@ -248,8 +275,8 @@ class C18(Prop):
     assumptions = (
         'the reference is a Python list of group texts (TexSoup compares '
         'groups textually)',
-        'whitespace-only strings (kept only in the private shadow list) are '
-        'not used as material',
+        'whitespace-only strings are accepted as material and kept in the '
+        'private shadow list only: they never change the list or its text',
     )
     probes = ('args', 'reach')
     probed_every = 10
@@ -298,7 +325,7 @@ class C18(Prop):
             yield k, {'initial': init, 'ops': hist, 'random': True}
 
     def nontrivial(self, p):
-        return any(o[0] in ('append', 'insert', 'extend', 'remove', 'remove_at', 'pop',
+        return any(o[0] in ('append', 'insert', 'extend', 'remove', 'remove_at', 'append_at', 'insert_at', 'pop',
                             'reverse') for o in p['ops'])
 
     def sample(self, p):
